@@ -227,6 +227,9 @@ impl Runner {
                 match cl.read(8000) {
                     Rd::Val(v) => {
                         if RANDOM_CMDS.contains(&&nm[..]) || nm == b"ZSCAN" { v.enc(&mut newop); }
+                        // EVAL adds its script to the cache: the digest of the source is the model's oracle
+                        // (computed by the harness's own SHA-1, checked by the model for consistency)
+                        if nm == b"EVAL" { if let V::Array(l) = &req { if let Some(V::Bulk(src)) = l.get(1) { V::Bulk(crate::c12::sha1_hex(src)).enc(&mut newop); } } }
                         // replies inside an EXEC array are canonicalised by the queued command's name
                         let v = if nm == b"EXEC" {
                             let q = self.queues.remove(&c).unwrap_or_default();
